@@ -368,7 +368,7 @@ pub fn gen_field(rng: &mut Rng, ty: &Value, o: &GenOpts, count: usize, out: &mut
             "ConInfo" => { for i in 0..16 { out.push(if i == 2 { 0 } else { rng.byte() }); } },
             "SmallType" => { out.push(if wild { rng.byte() } else { rng.below(11) as u8 }); let v = match rng.below(4) { 0 => 0u32, 1 => u32::MAX, 2 => rng.below(4) as u32, _ => rng.next() as u32 }; out.extend_from_slice(&v.to_le_bytes()); },
             "CimMode" => { out.push(if wild { rng.byte() } else { rng.below(7) as u8 }); out.push(if wild { rng.byte() } else { rng.below(5) as u8 }); out.push(rng.byte()); },
-            "GameVersion" => { let mut v = if wild { vec![rng.byte(), b'.', b'7'] } else { rng.pick(&["0.7E", "0.6V3", "0.7D64", "0.70A", "1", "0.04k"]).as_bytes().to_vec() }; v.resize(8, 0); out.extend_from_slice(&v); },
+            "GameVersion" => { let mut v = if wild { vec![rng.byte(), b'.', b'7'] } else { rng.pick(&["0.7E", "0.6V3", "0.7D64", "0.70A", "1", "0.04k", "0.000001", "12345678", "0.7D1234", "1234567", "0.00001", "9999.999"]).as_bytes().to_vec() }; v.resize(8, 0); out.extend_from_slice(&v); },
             _ => {},
         },
         _ => {},
